@@ -87,7 +87,11 @@ fn guarded<T>(what: &str, ctx: &str, f: impl FnOnce() -> T) -> T {
 fn transforms<B: StarkField, E: FieldElement<BaseField = B>>(field: &str, rng: &mut Rng, cases: &mut u64) {
     let max_log = if thorough() { 12 } else { 10 };
     let max_total = if thorough() { 1usize << 15 } else { 1usize << 13 };
-    for log_n in 1..=max_log {
+    // (sizes above the tier's bound, up to 2^12: plain evaluation / interpolation only, over the base fields -
+    // the sizes at which the recursion strategy of fft_in_place has switched for several levels)
+    let plain_only_from = max_log + 1;
+    let top = if E::EXTENSION_DEGREE == 1 { 12 } else { max_log };
+    for log_n in 1..=top {
         let n = 1usize << log_n;
         let twiddles = fft::get_twiddles::<B>(n);
         let inv_twiddles = fft::get_inv_twiddles::<B>(n);
@@ -126,6 +130,9 @@ fn transforms<B: StarkField, E: FieldElement<BaseField = B>>(field: &str, rng: &
             let inferred = guarded("fft::infer_degree", &ctx, || fft::infer_degree(&v, B::ONE));
             if inferred != true_degree {
                 fail(format!("infer_degree reports {inferred}, the polynomial has degree {true_degree}: {ctx}"));
+            }
+            if log_n >= plain_only_from {
+                continue;
             }
             // with offsets and blowups
             for (oname, offset) in [("1", B::ONE), ("generator", B::GENERATOR), ("seeded", B::from(((rng.next() >> 34) as u32) | 2))] {
